@@ -92,6 +92,7 @@ func genC11Hammer(seed uint64, r *rng) *Scenario {
 // and on Regexps that share only the process-wide pools (DESIGN §3 C11).
 func genC11(seed uint64, tier string) *Scenario {
 	r := newRng(seed)
+	setReplHot(r)
 	if r.chance(1, 6) {
 		return genC11Hammer(seed, r)
 	}
@@ -215,7 +216,7 @@ func genC11(seed uint64, tier string) *Scenario {
 						continue
 					}
 				} else {
-					op = Op{Kind: findKinds[r.n(len(findKinds))], Re: heavyRe, In: InputSpec{Unit: heavyFam.In.Unit, Rep: 1 + r.n(4)}, N: -1, Repl: repls[r.n(len(repls))], In2: lit("a")}
+					op = Op{Kind: findKinds[r.n(len(findKinds))], Re: heavyRe, In: InputSpec{Unit: heavyFam.In.Unit, Rep: 1 + r.n(4)}, N: -1, Repl: pickRepl(r), In2: lit("a")}
 					if heavyFam.Probe != "" && r.chance(2, 3) {
 						op.In = lit(heavyFam.Probe)
 					}
